@@ -202,6 +202,16 @@ def facts_at(fn, fi, node, stop_at=None):
             if (e["op"] == "&&") == pol:
                 split(e["c"][0], pol)
                 split(e["c"][1], pol)
+        elif e.get("k") == "ConditionalOperator" and len(e.get("c", [])) == 3 and strip(e["c"][2]).get("k") == "CXXBoolLiteralExpr" and not strip(e["c"][2]).get("v"):
+            # x ? y : false  ==  x && y
+            if pol:
+                split(e["c"][0], True)
+                split(e["c"][1], True)
+        elif e.get("k") == "ConditionalOperator" and len(e.get("c", [])) == 3 and strip(e["c"][1]).get("k") == "CXXBoolLiteralExpr" and strip(e["c"][1]).get("v"):
+            # x ? true : y  ==  x || y
+            if not pol:
+                split(e["c"][0], False)
+                split(e["c"][2], False)
         else:
             out.append((e, pol))
     for cond, pol in fi.guards(node, stop_at=stop_at):
